@@ -1358,7 +1358,7 @@ static LY_ERR
 lydxml_env_netconf_rpc(struct lyxml_ctx *xmlctx, struct lyd_node **envp, uint32_t *int_opts, uint32_t *close_elem)
 {
     LY_ERR rc = LY_SUCCESS, r;
-    struct lyd_node *child;
+    struct lyd_node *child = NULL;
 
     assert(envp && !*envp);
 
